@@ -86,6 +86,14 @@ def make_pass(job):
     return (passes[0] if len(passes) == 1 else ir.passes.Sequential(*passes)), passes
 
 
+def variant_for(P: dict, pid: int) -> int:
+    """Concretisation variant of a program: normally its index; a program whose control-flow bodies hold initializers
+    always gets the colliding naming scheme (that is where lifting / renaming passes meet name clashes)."""
+    nf = len(P["f"])
+    body_inits = any(g["inits"] for g in P["g"][1 + nf:])
+    return 3 * pid + 1 if body_inits else pid
+
+
 def ser(model) -> bytes:
     return ir.to_proto(model).SerializeToString(deterministic=True)
 
@@ -202,7 +210,7 @@ def checker_ok(proto) -> bool:
 def run_functionalized(P: dict, pid: int) -> dict:
     """Only the functionalize() probe of every pass object on one program (C13)."""
     out = {"apps": [], "bad_corpus": None}
-    proto = rewrite.concretize(P, variant=pid)
+    proto = rewrite.concretize(P, variant=variant_for(P, pid))
     if not checker_ok(proto):
         out["bad_corpus"] = "concretised program rejected by onnx.checker"
         return out
@@ -214,7 +222,7 @@ def run_functionalized(P: dict, pid: int) -> dict:
         fm = ir.from_proto(onnx.load_from_string(proto_bytes))
         b0 = ser(fm)
         rec = {"inplace": True, "same": True, "modified": False, "changed": False, "rounds": [{"modified": False, "changed": False}],
-               "size": 1, "invariantsOK": True, "sortedBefore": True, "sortedAfter": True, "namesOK": True, "analysis": False}
+               "size": 1, "invariantsOK": True, "sortedBefore": True, "sortedAfter": True, "namesOK": True, "reloadOK": True, "analysis": False}
         try:
             fr = ir.passes.functionalize(make_pass(job)[0])(fm)
             rec.update(funcTried=True, funcRaised=False, funcInputSame=ser(fm) == b0, funcFresh=fr.model is not fm)
@@ -227,7 +235,7 @@ def run_functionalized(P: dict, pid: int) -> dict:
 def run_program(P: dict, pid: int, seed: int, pass_names=None, with_sequences=True) -> dict:
     """Returns {'pairs': [...], 'apps': [...], 'obs': [...], 'raised': [...], 'bad_corpus': str|None}."""
     out = {"pairs": [], "apps": [], "obs": [], "raised": [], "bad_corpus": None, "witness": {}, "invalid_after": []}
-    proto = rewrite.concretize(P, variant=pid)
+    proto = rewrite.concretize(P, variant=variant_for(P, pid))
     if not checker_ok(proto):
         out["bad_corpus"] = "concretised program rejected by onnx.checker"
         return out
@@ -285,13 +293,21 @@ def run_program(P: dict, pid: int, seed: int, pass_names=None, with_sequences=Tr
                 func = {"funcTried": True, "funcRaised": False, "funcInputSame": ser(fm) == ser_before, "funcFresh": fr.model is not fm}
             except Exception:  # noqa: BLE001 - the same failure as the plain application (recorded there)
                 func = {"funcTried": True, "funcRaised": True, "funcInputSame": True, "funcFresh": True}
+        # the result can be read back (the names it is written under are usable): only asked of models that could
+        # be read back before the pass
+        reload_ok = True
+        if changed:
+            try:
+                ir.from_proto(onnx.load_from_string(after_bytes))
+            except Exception:  # noqa: BLE001
+                reload_ok = False
         obs = irobs.project_model(after)
         out["obs"].append((key, obs))
         in_place = all(p.in_place for p in passes)
         out["apps"].append({"id": key, "a": {
             "inplace": bool(in_place), "same": after is model, "modified": bool(res.modified), "changed": bool(changed),
             "rounds": rounds, "size": bound - 1, "invariantsOK": True, "sortedBefore": bool(sorted_before),
-            "sortedAfter": bool(is_sorted(after)), "namesOK": bool(names_ok(after)),
+            "sortedAfter": bool(is_sorted(after)), "namesOK": bool(names_ok(after)), "reloadOK": reload_ok,
             "analysis": all(n in ANALYSIS for n in job) and not job[0].startswith("PM"), **func}})
         if changed and not checker_ok(onnx.load_from_string(after_bytes)):
             try:
@@ -310,7 +326,7 @@ def run_program(P: dict, pid: int, seed: int, pass_names=None, with_sequences=Tr
     # the sorting pass is also given the same program with its nested bodies in reverse node order
     # (not checker-valid, so only the contract clauses are recorded, no before/after pair)
     if any(len(g["nodes"]) > 1 for g in P["g"][len(P["f"]) + 1:]) and (pass_names is None or "TopologicalSort" in pass_names):
-        rp = rewrite.concretize(P, variant=pid, reverse_bodies=True).SerializeToString()
+        rp = rewrite.concretize(P, variant=variant_for(P, pid), reverse_bodies=True).SerializeToString()
         model = ir.from_proto(onnx.load_from_string(rp))
         b0 = ser(model)
         try:
@@ -319,7 +335,7 @@ def run_program(P: dict, pid: int, seed: int, pass_names=None, with_sequences=Tr
             out["apps"].append({"id": f"{pid}:TopologicalSort@unsorted-body", "a": {
                 "inplace": True, "same": res.model is model, "modified": bool(res.modified), "changed": b1 != b0,
                 "rounds": [{"modified": False, "changed": False}], "size": 1, "invariantsOK": True, "sortedBefore": False,
-                "sortedAfter": bool(is_sorted(res.model)), "namesOK": True, "analysis": False,
+                "sortedAfter": bool(is_sorted(res.model)), "namesOK": True, "reloadOK": True, "analysis": False,
                 "funcTried": False, "funcRaised": False, "funcInputSame": True, "funcFresh": True}})
         except Exception as e:  # noqa: BLE001
             out["raised"].append({"id": f"{pid}:TopologicalSort@unsorted-body", "error": f"{type(e).__name__}: {str(e)[:160]}", "cause": ""})
